@@ -483,6 +483,67 @@ def check_iterators(chk, m, L, N, I):
                p.ret_inst.loc, fn.name)
 
 
+def check_effects(chk, m, L, N, I):
+    """N7: the basic mutators do their job on every path (the conditional rules N1-N3 say nothing about a mutator that does nothing).
+    list_extract: NULL exactly when the list is empty, otherwise the old head, which is unlinked (head := head->next, directly or
+    through list_iterator_remove on an iterator just positioned by list_iterate).  list_push: head := node, node->next := old head.
+    list_insert: node stored into the end slot (head of an empty list / tail->next)."""
+    head_o, tail_o, next_o = L["head"], L["tail"], N["next"]
+    headp = paths.mkptr(("arg", 0), head_o)
+
+    def same_ld(x, ptr):
+        x = strip_casts(x)
+        return x[0] == "ld" and x[1] == ptr
+    n = 0
+    if m.has_fn("list_extract"):
+        fn = m.functions["list_extract"]
+        for start, p in runs_of(m, fn):
+            n += 1
+            pid = "list_extract " + "->".join(b.lstrip("%") for b in p.blocks)
+            its = [e for e in p.events if e.kind == "call" and e.callee == "list_iterate" and e.args[0] == ("arg", 0)]
+            cands = [e.res for e in its]
+            hl = [e.val for e in p.events if e.kind == "load" and e.ptr == headp]
+            cands += hl
+            r = strip_casts(p.ret) if p.ret is not None else None
+            stores = [e for e in p.events if e.kind == "store" and ptr_parts(e.ptr)[0] == ("arg", 0)]
+            rm = [e for e in p.events if e.kind == "call" and e.callee == "list_iterator_remove"]
+            if r == ("null",) or (r in cands and is_null_on_path(p, r) is True):
+                ok = any(is_null_on_path(p, c) is True for c in cands) and not stores and not rm
+                chk.ob("N7.extract", pid, ok, "NULL is returned only from an empty list, which is left alone", p.ret_inst.loc, fn.name)
+                continue
+            ok = r in cands and is_null_on_path(p, r) is not True
+            direct = [e for e in stores if e.ptr == headp and same_ld(e.val, paths.mkptr(r, next_o))] if ok else []
+            via_it = [e for e in rm if its and e.args[0] == its[0].args[1] and r == its[0].res and
+                      not any(x.kind == "call" and x.callee == "list_iterator_next" for x in p.events)] if ok else []
+            ok = ok and (bool(direct) or bool(via_it))
+            chk.ob("N7.extract", pid, ok,
+                   "the old head is returned and unlinked (%s)" % ("head := head->next" if direct else "list_iterator_remove at the first position") if ok else
+                   "a node is returned (%s) but the head is not unlinked on this path: the same node is extracted again and again "
+                   "(the scheduler would dispatch one fibre for ever)" % fmt(p.ret)[:40], p.ret_inst.loc, fn.name)
+    if m.has_fn("list_push"):
+        fn = m.functions["list_push"]
+        for start, p in runs_of(m, fn):
+            n += 1
+            pid = "list_push " + "->".join(b.lstrip("%") for b in p.blocks)
+            st_head = [e for e in p.events if e.kind == "store" and e.ptr == headp and strip_casts(e.val) == ("arg", 1)]
+            st_next = [e for e in p.events if e.kind == "store" and e.ptr == paths.mkptr(("arg", 1), next_o) and same_ld(e.val, headp)]
+            hl = [e.val for e in p.events if e.kind == "load" and e.ptr == headp]
+            empty = any(is_null_on_path(p, h) is True for h in hl)
+            ok = bool(st_head) and (empty or (bool(st_next) and p.events.index(st_next[0]) < p.events.index(st_head[0])))
+            chk.ob("N7.push", pid, ok, "node->next := old head (nothing to do when the list was empty: a node outside a list has a NULL "
+                   "next), then head := node", p.ret_inst.loc, fn.name)
+    if m.has_fn("list_insert"):
+        fn = m.functions["list_insert"]
+        for start, p in runs_of(m, fn):
+            n += 1
+            pid = "list_insert " + "->".join(b.lstrip("%") for b in p.blocks)
+            st = [e for e in p.events if e.kind == "store" and strip_casts(e.val) == ("arg", 1) and
+                  (e.ptr == headp or (ptr_parts(e.ptr)[1:] == (next_o, ()) and same_ld(ptr_parts(e.ptr)[0], paths.mkptr(("arg", 0), tail_o))))]
+            chk.ob("N7.insert", pid, bool(st), "the node is stored into the end slot of the list (head of an empty list, else tail->next)",
+                   p.ret_inst.loc, fn.name)
+    chk.expect("N7", "paths of the basic mutators", n, 5)
+
+
 def run(chk):
     chk.explanation = (
         "Structural clauses of list.c decided on every path / loop-free segment of every list function: clear-on-unlink, "
@@ -492,6 +553,7 @@ def run(chk):
     chk.rule("N1", "every path that unlinks a node (slot := node->next) later stores NULL to node->next")
     chk.rule("N2", "every path that stores a node into a link slot whose old content is NULL or untested (head, tail->next, *prevnext) also stores that node to list->tail")
     chk.rule("N3", "unlinking through an iterator slot compares the victim with list->tail and, if equal, sets tail to containerof(prevnext)")
+    chk.rule("N7", "the basic mutators do their job on every path: extract returns and unlinks the old head (NULL only from an empty list), push links the node in front, insert stores it into the end slot")
     chk.rule("N4", "list_insert_sorted: node moves past X iff cmp(node, X) >= 0 at both tests (C02 T4)")
     chk.rule("N6", "list.h observers: list_empty(l) is true exactly when l->head == NULL; list_peek(l) returns l->head")
     chk.rule("N5", "list_iterate / list_iterator_next / list_contains / list_remove keep the iterator designating the element the API documents")
@@ -513,4 +575,5 @@ def run_rules(chk):
     chk.note_unit(m)
     L, N, I = layout(m)
     check_structure(chk, m, L, N, I)
+    check_effects(chk, m, L, N, I)
     check_iterators(chk, m, L, N, I)
